@@ -60,6 +60,7 @@ theorem c20_foreign_old_untouched (e : Env) (fs : Ents) (d old : String) (hne : 
     | some o =>
       cases o with
       | file b => rfl
+      | link t => rfl
       | dir es =>
         cases es with
         | nil => simp [ho, canRemove, isEmptyDir, Ents.isNil] at hc
@@ -112,6 +113,7 @@ theorem removeOld_nofault (e : Env) (fs : Ents) (old : String) (h : e.faults = [
     | some o =>
       cases o with
       | file b => simp [ho, canRemove, isUftraceDir, isEmptyDir] at hr
+      | link t => simp [ho, canRemove, isUftraceDir, isEmptyDir] at hr
       | dir es =>
         obtain ⟨h1, h2⟩ := rmNode_nofault (.dir es) e h
         obtain ⟨h3, h4⟩ := h1 es rfl
